@@ -92,8 +92,8 @@ def make_triangle_mesh(points, size_u, size_v, **kwargs):
     # Variable initialization
     u_jump = (1.0 / float(size_u - 1)) * vertex_spacing  # for computing vertex parametric u value
     v_jump = (1.0 / float(size_v - 1)) * vertex_spacing  # for computing vertex parametric v value
-    varr_size_u = int(round((float(size_u) / float(vertex_spacing)) + 10e-8))  # vertex array size on the u-direction
-    varr_size_v = int(round((float(size_v) / float(vertex_spacing)) + 10e-8))  # vertex array size on the v-direction
+    varr_size_u = ((size_u - 1) // vertex_spacing) + 1  # vertex array size on the u-direction
+    varr_size_v = ((size_v - 1) // vertex_spacing) + 1  # vertex array size on the v-direction
 
     # Generate vertices directly from input points (preliminary evaluation)
     vertices = [Vertex() for _ in range(varr_size_v * varr_size_u)]
